@@ -6,6 +6,7 @@ import (
 	"time"
 
 	sdk "github.com/cosmos/cosmos-sdk/types"
+	authtypes "github.com/cosmos/cosmos-sdk/x/auth/types"
 
 	"github.com/irismod/service/types"
 )
@@ -29,6 +30,7 @@ var (
 	consumerAtoms = []int64{111, 112, 113}
 	providerAtoms = []int64{121, 122, 123, 124, 125, 126, 127, 101, 102, 128}
 	wdAtoms       = []int64{131, 132}
+	blockedAtoms  = []int64{9001, 9002, 9003, 9004}
 	strangerAtom  = int64(141)
 )
 
@@ -68,6 +70,11 @@ func standardAtoms() *Atoms {
 	a.addAddr(131, pad20("withdraw-one"))
 	a.addAddr(132, pad20("withdraw-two"))
 	a.addAddr(141, pad20("stranger"))
+	// module accounts the bank keeper blocks as receivers (model: is_blocked, atoms 9001..9004)
+	a.addAddr(9001, authtypes.NewModuleAddress(types.RequestAccName))
+	a.addAddr(9002, authtypes.NewModuleAddress(types.DepositAccName))
+	a.addAddr(9003, authtypes.NewModuleAddress(authtypes.FeeCollectorName))
+	a.addAddr(9004, authtypes.NewModuleAddress("gov"))
 	return a
 }
 
@@ -423,6 +430,8 @@ func (g *Gen) next0() *Op {
 		o := &Op{Kind: "setwd", Owner: pick(rng, ownerAtoms), Addr: pick(rng, wdAtoms)}
 		if g.chance(0.2) {
 			o.Addr = o.Owner
+		} else if g.chance(0.15) {
+			o.Addr = pick(rng, blockedAtoms) // a module account: must be rejected (repair D11)
 		}
 		return o
 	case x < 60:
